@@ -122,8 +122,9 @@ CLAIMED["C05"] = dict(
          "hypothesis at tree level and is discharged for the codecs: C05_array_body_ok, C05_metadata_entry_ok, C05_array_node_ok; "
          "dim-vector lengths (2 or extent) are C02_stored_length; (3) node-valued attributes of Custom nodes: the validator requires "
          "every group of a body other than the bundle to carry one of the five custom_<type> tags and a class (C05_attr_groups_tagged); "
-         "Custom.to_h5 itself is not modelled: Custom nodes with attributes of every built-in class, subclasses and nested Custom nodes "
-         "are written by the real code and the raw walk of the real file is validated by both validators.",
+         "Custom.to_h5 is modelled as customBody (Node.to_h5's group, then one re-tagged group per node-valued attribute) with "
+         "C05_custom_body_ok; Custom nodes with attributes of every built-in class, subclasses and nested Custom nodes are written "
+         "by the real code, the body compared with customBody and the raw walk of the real file validated by both validators.",
     technique="Lean 4 invariant proof over a decidable validator + differential correspondence against an independent h5py validator",
     design="7 C05")
 
